@@ -4,13 +4,28 @@ def main(tier, args):
     t0 = time.time()
     exe = vf.build("C08/handles", [vf.VERIF + "/checks/C08/harness.cpp"], vf.module_sources("util/fd.cpp"), mode="asan",
                    plain_srcs=[vf.VERIF + "/engine/sched/log_stub.cpp"])
-    # depth per sub-harness: the cabinet space grows fastest (every alloc adds a token that is kept forever)
-    dc, dp, df, dl, nparts, fdcfg = (9, 12, 8, 45, 6, ("cf", "sys")) if tier == "quick" else (13, 16, 10, 1200, 12, ("cf", "sys", "cf:4:3", "sys:4:3"))
-    cmds = [("cabinet/%d" % k, [exe, "cabinet", str(dc), "%d/%d" % (k, nparts)]) for k in range(nparts)]
-    cmds += [("pool/keep%s" % k, [exe, "pool", str(dp), k]) for k in ("0", "1", "2", "max")]
+    quick = tier == "quick"
+    # depth per sub-harness: the cabinet space grows fastest (every alloc adds a token that is kept forever, x3.7 per level with the full alphabet)
+    dc, dp, df, dl = (9, 14, 8, 45) if quick else (11, 20, 10, 1200)
+    nparts = 6 if quick else 12
+    # cabinet configurations: (name, config argument, depth, processes)
+    #   plain    full alphabet (entries with and without object), fresh cabinet
+    #   wrap     same, the id counter starts two below its maximum, so it wraps after two allocations
+    #   reserveN same, reserve(N) before the first op
+    #   basic    the alphabet without object-less entries (a much smaller space), searched deeper (thorough tier only)
+    cab = [("cabinet", "plain", dc, nparts), ("cabinet-wrap", "wrap", dc - 1, 2 if quick else 6),
+           ("cabinet-reserve1", "reserve1", dc - 2, 1), ("cabinet-reserve4", "reserve4", dc - 2, 1)]
+    if not quick:
+        cab.append(("cabinet-basic", "basic", 13, 12))
+    cmds = []
+    for name, cfg, d, n in cab:
+        cmds += [("%s/%d" % (name, k), [exe, "cabinet", str(d), "%d/%d" % (k, n), cfg]) for k in range(n)]
+    probes = ("probe16", "small1", "odd17", "wide40")
+    cmds += [("pool-%s/keep%s" % (p, k), [exe, "pool", str(dp), k, p]) for p in probes for k in ("0", "1", "2", "max")]
+    fdcfg = ("cf", "sys") if quick else ("cf", "sys", "cf:4:3", "sys:4:3")
     cmds += [("fd/%s" % m, [exe, "fd", str(df), m]) for m in fdcfg]
     # first four: one of each kind (their @SAMPLE lines are the ones kept in the evidence) and the longest-running ones
-    first = ["cabinet/0", "pool/keepmax", "fd/" + fdcfg[-1], "pool/keep2"]
+    first = ["cabinet/0", "pool-probe16/keepmax", "fd/" + fdcfg[-1], "cabinet-wrap/0"]
     cmds.sort(key=lambda c: first.index(c[0]) if c[0] in first else len(first))
     only = getattr(args, "only", None)
     if only:
@@ -21,19 +36,34 @@ def main(tier, args):
                                       # a UBSan report raises SIGABRT so that the crash reporter prints the history being evaluated
                                       "UBSAN_OPTIONS": "print_stacktrace=1:abort_on_error=1"}, log=log)
     vf.finish(PID, tier, res, t0,
-              rule="three BFS explorations over ALL op histories on the real classes, canonical-state dedup, oracle after every op + ASan/UBSan. "
-                   "(a) Cabinet depth<=%d (search dealt out to %d processes by canonical state at depth 6; a state reached from two shares is counted twice): alloc, free(t)/update(t) for every token ever issued (stale included), clear, "
-                   "foreach with removal (all/even/odd/next-to-visit/previously-visited/none), null-token free/update; after every op at(t) and "
-                   "operator[] for every token ever issued, size(), pairwise distinct live tokens; state = last_id_, first_free_, count_, all cells "
-                   "(id or free link), all tokens held with model status. "
-                   "(b) ObjectPool<Probe> depth<=%d, keep_number in {0,1,2,default max}: alloc, free(each live object); probe counts ctor/dtor and stamps a "
-                   "live flag over the bytes the free list reuses; state = free_number_, parked list in order, live blocks (named by birth order). "
-                   "(c) util::Fd depth<=%d (reaches a fixpoint earlier), %s handle variables x fake descriptors (1000.., re-issued only after close), recorded by an injected "
-                   "CloseFunc (cf) or an interposed ::close (sys): open, default/copy/move construct, copy/move assign, self-assign, swap, self-swap, reset, "
-                   "close, destroy; every history ends by destroying all handles; state = variable->record map, per record fd/ref_count/close_func"
-                   % (dc, nparts, dp, df, "3x2" if tier == "quick" else "3x2 and 4x3"),
-              assumptions=["Cabinet ids do not wrap (2^64 allocations are out of reach); objects stored are non-null; foreach callbacks only remove",
-                           "object identity is not part of the cabinet canonical state (no control flow depends on obj_ptr)",
-                           "ObjectPool: single probe type (16 bytes, pointer-aligned), constructors do not throw, malloc never fails",
-                           "Fd: single-threaded use; descriptor numbers are fake (>=1000) and never reach the kernel",
+              rule="three BFS explorations over ALL op histories on the real classes, canonical-state dedup, oracle for every explored history + ASan/UBSan. "
+                   "(a) Cabinet, configurations %s (name:depth bound:processes; a search is dealt out to its processes by canonical state at depth 6, a state "
+                   "reached from two shares is counted twice; wrap = the id counter starts two below its maximum so ids run max-1, max, 1, 2..; reserveN = reserve(N) first; "
+                   "basic = without object-less entries): alloc(obj), alloc() without object, free(t)/update(t,obj)/update(t,nullptr) for every token ever issued (stale included), "
+                   "clear, reserve(two beyond the cells in use) and reserve(1), foreach with removal (all/even/odd/next-to-visit/previously-visited/none), null-token free/update; for every explored "
+                   "history at(t) and operator[] for every token ever issued, size()/empty(), live tokens pairwise distinct as (id,pos) pairs and as keys of a std::set and a "
+                   "std::unordered_set (stale ones not found there), for every token issued ==,!=,<,<=,>,>=,less,equal,hash,std::hash,bool,reset against the (id,pos) pairs "
+                   "(strict order: trichotomy and transitivity over all tokens held; the order itself is not prescribed), foreach delivers every live object once and "
+                   "never more null pointers than there are object-less entries; the return-value clauses run at every op of a replay, the pairwise and "
+                   "container clauses after its last op (every prefix of an explored history is itself an explored history); state = last_id_, first_free_, count_, all cells "
+                   "(id or free link), all tokens held with model status (live with object / live without / freed / cleared). "
+                   "(b) ObjectPool<T> depth<=%d, T in {16-byte two-word probe, 1-byte probe (smaller than the free-list link), 17-byte alignment-1 probe, 40-byte probe} x "
+                   "keep_number in {0,1,2,default max}: alloc(int), alloc() without arguments, alloc whose constructor allocates a child from the "
+                   "same pool, free(each live object), free(each live object) whose destructor frees another live object of the pool (all ordered pairs); the probes count "
+                   "ctor/dtor and stamp every byte they own (which includes the bytes the free list reuses); state = keep_number_, free_number_, length of the parked chain, "
+                   "number of live objects (blocks are interchangeable for the pool: states are identified up to renaming of blocks; every chain clause - length, duplicates, live or "
+                   "unknown blocks on it - is evaluated after every op, and every live object is offered to free() in every state). "
+                   "(c) util::Fd depth<=%d (reaches a fixpoint earlier), %s handle variables x descriptor numbers (0, 1000, 1001; re-issued only after close; kept from the kernel by the "
+                   "::close seam), closes recorded WITH THEIR CHANNEL - the injected CloseFunc (cf lanes) or the interposed ::close (sys lanes; in either lane any ::close issued during "
+                   "an Fd operation is recorded, whatever its argument): Fd(fd[,cf]), Fd(-1[,cf]) (holds nothing, never closes), Fd::Open of a missing file (null handle) and of "
+                   "/dev/null (a kernel descriptor, closed through ::close in both lanes, one at a time), default/copy/move construct, copy/move assign, self-assign, swap, "
+                   "self-swap, reset, close, destroy; every history ends by destroying all handles; state = variable->record map, per record fd/ref_count/close_func"
+                   % (" ".join("%s:%d:%d" % (n, d, k) for n, _, d, k in cab), dp, df, "3x2" if quick else "3x2 and 4x3"),
+              assumptions=["Cabinet: foreach callbacks only remove; tokens are the ones the cabinet issued (no forged tokens); one cabinet at a time; "
+                           "after the id counter has wrapped the search stays far below 2^64 further allocations, so no id is issued twice",
+                           "object identity is not part of the cabinet canonical state beyond 'has an object / has none' (no control flow depends on obj_ptr)",
+                           "ObjectPool: constructors and destructors do not throw, malloc never fails; re-entrancy is one level deep "
+                           "(a constructor allocates one child, a destructor frees one other object); stat_ is not part of the state (no control flow reads it)",
+                           "Fd: single-threaded use; the CloseFunc does not call back into the handle; descriptor numbers other than the one obtained from "
+                           "Fd::Open(\"/dev/null\") never reach the kernel",
                            "LifetimeTag (anchor file) is not exercised by this check"])
